@@ -12,7 +12,7 @@ THEOREMS = ['C06.C06_absorbing', 'C06.C06_running_frame', 'C06.C06_only_active_r
 LEVEL = 'proof'
 LEVEL_TEXT = 'Theorems for every later state of every accepted run (positional, independent of ids): an inactive deme is never reactivated and its history and counter never change; histories are append-only; only an active deme can run; generations never create demes or touch the metaepoch counter; demes created by a round are active, start at the current metaepoch and cannot run before the next step. Tie: trace refinement (schedule, generation counts, LSC/GSC/CMA-stop consequences are computed by the model and diffed) + direct monitor. C06_one_metaepoch: from any boundary state with pairwise distinct ids (every reachable state, C07_wf), after the loop-head consult came out false, ANY accepted sequence of generation / local-search events that reaches the end of run_metaepoch leaves every scheduled deme (active and awake when the step began) with exactly one more recorded metaepoch and every other deme unchanged (run_phase, schedule_nodup). NEW: C06_deactivation_gen — an accepted generation is run by an active deme and leaves it inactive IFF the outcome of the consults was: the global stop condition held (then and only then it is marked as seen), or CMA-ES reported its own termination, or the metaepoch was complete and the local stop condition gave a true verdict (never for DontStop); while the metaepoch goes on the history is untouched, otherwise exactly one metaepoch is recorded. C06_local_one_shot: a local search always deactivates its deme.'
 LEVEL_NOTE = 'Trusted: Lean kernel + standard axioms; the hand-written tree model (Tree.step) is tied to DemeTree.run by trace refinement on sampled runs (every run is re-executed by the model, dumps and sprout stages diffed); numerical engines (NumPy RNG, cma, scipy), objective values and user-defined stop-condition verdicts are environment; monitors trusted as failing-input search. What the verdicts are (the shipped conditions evaluated on the tree) is the model gscEval / lscEval, tied by refinement; the monitor re-evaluates the shipped pure local stop conditions on the state each deme run leaves behind.'
-TECHNIQUE = "trace refinement against the Lean tree model (Tree.step re-executes real runs) + direct monitors"
+TECHNIQUE = "Lean 4 theorems (inductive invariants of the tree machine Tree.step, proved for all configurations and event sequences) tied to the code by trace refinement (Tree.step re-executes real runs; engine generations replayed bit-exactly by the engine model) + direct monitors as failing-input search"
 RULE = "case = one traced run of a random configuration (1-3 levels, engine per level from the full list, every shipped GSC/LSC kind plus user-defined ones, both stock sprout mechanisms and user-composed chains, hibernation on/off, both directions, decimal boxes, optional cutoff/precision/stats wrappers, shared or per-level problems); non-trivial = run with >= 2 demes and >= 2 metaepochs; distinct by configuration hash"
 ASSUMPTIONS = ['objective is deterministic (NaN values allowed in a separate monitored slice; the model-refinement runs use NaN-free objectives because two NaNs are ordered by a coin flip)', 'runs are capped at 12 metaepochs by a user-level composite stop condition']
 FORCE = None
